@@ -20,6 +20,8 @@ type recCall struct {
 	name string
 	args string
 	st   imap.ConnState // connection state observed inside the call (when conn is known)
+	// failed: the stub answered this call with its configured error
+	failed bool
 }
 
 type recSession struct {
@@ -41,8 +43,9 @@ func (s *recSession) rec(name, args string) error {
 	if s.conn != nil {
 		c.st = s.conn.VerifState()
 	}
-	s.calls = append(s.calls, c)
 	err := s.fail[name]
+	c.failed = err != nil
+	s.calls = append(s.calls, c)
 	cb := s.onCall
 	s.mu.Unlock()
 	if cb != nil {
